@@ -47,12 +47,16 @@ ElemPool == {0, 1, 2, 3}
 Lists == UNION {{EList([i \in 1..k |-> N(s[i])]) : s \in [1..k -> ElemPool]} : k \in 0..MaxL}
 
 VARIABLE c
-Init == \/ c \in {[form |-> "via", l |-> l, f |-> f] : l \in Lists, f \in Mappers}
-        \/ c \in {[form |-> "where", l |-> l, f |-> f] : l \in Lists, f \in Predicates}
-        \/ c \in {[form |-> "into", l |-> l, f |-> f] : l \in Lists \cup {N(2), N(3)}, f \in Mappers}
-        \/ c \in {[form |-> "every", l |-> l, f |-> f] : l \in Lists, f \in Predicates}
-        \/ c \in {[form |-> "some", l |-> l, f |-> f] : l \in Lists, f \in Predicates}
-        \/ c \in {[form |-> "reduce", l |-> l, f |-> f] : l \in Lists, f \in Reducers}
+\* where the function comes from: named at top level; a parameter of a factory whose returned closure is called after the
+\* factory has returned; a local of a do-block whose returned closure is called after the block
+Sites == {"direct", "factory", "block"}
+OpForms == {"via", "where", "into"}
+Init == \/ c \in {[form |-> "via", l |-> l, f |-> f, site |-> s] : l \in Lists, f \in Mappers, s \in Sites}
+        \/ c \in {[form |-> "where", l |-> l, f |-> f, site |-> s] : l \in Lists, f \in Predicates, s \in Sites}
+        \/ c \in {[form |-> "into", l |-> l, f |-> f, site |-> s] : l \in Lists \cup {N(2), N(3)}, f \in Mappers, s \in Sites}
+        \/ c \in {[form |-> "every", l |-> l, f |-> f, site |-> "direct"] : l \in Lists, f \in Predicates}
+        \/ c \in {[form |-> "some", l |-> l, f |-> f, site |-> "direct"] : l \in Lists, f \in Predicates}
+        \/ c \in {[form |-> "reduce", l |-> l, f |-> f, site |-> "direct"] : l \in Lists, f \in Reducers}
 Next == UNCHANGED c
 Spec == Init /\ [][Next]_c
 
@@ -62,17 +66,26 @@ Env0 == RunAll(Setup, <<EmptyFrame>>)
 Ev(e) == Eval(e, Env0, 0).v
 Fe == EId(c.f)
 
-\* the two equivalent programs of each form
-FormA == CASE c.form = "via"    -> EBin("via", c.l, Fe)
-       [] c.form = "where"  -> EBin("where", c.l, Fe)
-       [] c.form = "into"   -> EBin("into", c.l, Fe)
-       [] c.form = "every"  -> ECall(EId("every"), <<c.l, Fe>>)
-       [] c.form = "some"   -> ECall(EId("some"), <<c.l, Fe>>)
-       [] c.form = "reduce" -> ECall(EId("reduce"), <<c.l, Fe, N(1)>>)
-FormB == CASE c.form = "via"    -> ECall(EId("map"), <<c.l, Fe>>)
-       [] c.form = "where"  -> ECall(EId("filter"), <<c.l, Fe>>)
-       [] c.form = "into"   -> ECall(Fe, <<c.l>>)
-       [] OTHER -> FormA
+\* the two equivalent programs of each form, over a list expression le and a function expression fe
+BodyA(form, le, fe) ==
+  CASE form = "via"    -> EBin("via", le, fe)
+    [] form = "where"  -> EBin("where", le, fe)
+    [] form = "into"   -> EBin("into", le, fe)
+    [] form = "every"  -> ECall(EId("every"), <<le, fe>>)
+    [] form = "some"   -> ECall(EId("some"), <<le, fe>>)
+    [] form = "reduce" -> ECall(EId("reduce"), <<le, fe, N(1)>>)
+BodyB(form, le, fe) ==
+  CASE form = "via"    -> ECall(EId("map"), <<le, fe>>)
+    [] form = "where"  -> ECall(EId("filter"), <<le, fe>>)
+    [] form = "into"   -> ECall(fe, <<le>>)
+    [] OTHER -> BodyA(form, le, fe)
+\* the body placed at the site
+At(site, body(_, _)) ==
+  CASE site = "direct"  -> body(c.l, Fe)
+    [] site = "factory" -> ECall(ECall(ELam(<<Req("cb")>>, ELam(<<Req("ys")>>, body(EId("ys"), EId("cb")))), <<Fe>>), <<c.l>>)
+    [] site = "block"   -> ECall(EDo(<<EAsg("cb", Fe)>>, ELam(<<Req("ys")>>, body(EId("ys"), EId("cb")))), <<c.l>>)
+FormA == At(c.site, LAMBDA le, fe : BodyA(c.form, le, fe))
+FormB == At(c.site, LAMBDA le, fe : BodyB(c.form, le, fe))
 ProjV(v) == IF v.t = "err" THEN [t |-> "err"] ELSE v
 
 \* ------------------------------------------------------------------ the laws on the reference evaluator
@@ -81,7 +94,7 @@ FormsAgree == ProjV(Ev(FormA)) = ProjV(Ev(FormB))
 xs == c.l.xs
 Fv == Ev(Fe)
 CallbackProtocol ==
-  (c.form = "via" /\ c.l.k = "list" /\ (IsFn(Fv) \/ IsBi(Fv))) =>
+  (c.form = "via" /\ c.site = "direct" /\ c.l.k = "list" /\ (IsFn(Fv) \/ IsBi(Fv))) =>
      LET rs == [j \in 1..Len(xs) |-> ApplyFn(Fv, IF FnCanAccept(Fv, 2) THEN <<Fin(xs[j].v), Fin(j - 1)>> ELSE <<Fin(xs[j].v)>>, Env0, 0)] IN
      IF \E j \in 1..Len(rs) : IsE(rs[j]) THEN IsE(Ev(FormA)) ELSE Ev(FormA) = List(rs)
 EverySome ==
@@ -95,5 +108,7 @@ LeftFold(j, acc, three) == IF j > Len(xs) \/ IsE(acc) THEN acc
 ReduceIsLeftFold == (c.form = "reduce" /\ (IsFn(Fv) \/ IsBi(Fv))) => ProjV(Ev(FormA)) = ProjV(LeftFold(1, Fin(1), FnCanAccept(Fv, 3)))
 
 ASSUME PrintT(<<"SETUP", ToJson(Setup)>>)
-Emit == PrintT(<<"CASE", ToJson([form |-> c.form, f |-> c.f, a |-> FormA, b |-> FormB, exp |-> ProjV(Ev(FormA))])>>)
+\* the site does not matter: a function held in a captured parameter or local behaves as the named function does
+SiteIndependent == ProjV(Ev(FormA)) = ProjV(Ev(BodyA(c.form, c.l, Fe)))
+Emit == PrintT(<<"CASE", ToJson([form |-> c.form, site |-> c.site, f |-> c.f, a |-> FormA, b |-> FormB, exp |-> ProjV(Ev(FormA))])>>)
 =============================================================================
